@@ -261,6 +261,74 @@ func (w *World) restrictResults() []*obResult {
 			if pk.Types == nil || !inModule(pk.Types) || shortPkg(pk.Path) != rd.Pkg {
 				continue
 			}
+			// a helper that is reachable only from allowed functions is as good as they are (a piece of printArg moved
+			// into an unexported function of its own): callers inside the package, exported functions never qualify
+			fnName := func(fd *ast.FuncDecl) string {
+				n := fd.Name.Name
+				if fd.Recv != nil && len(fd.Recv.List) == 1 {
+					n = strings.TrimPrefix(exprString(fd.Recv.List[0].Type), "*") + "." + n
+				}
+				return n
+			}
+			callers := map[string]map[string]bool{}
+			exported := map[string]bool{}
+			for _, f := range pk.Files {
+				if strings.HasSuffix(w.Fset.Position(f.Pos()).Filename, "_test.go") {
+					continue
+				}
+				for _, d := range f.Decls {
+					fd, ok := d.(*ast.FuncDecl)
+					if !ok || fd.Body == nil {
+						continue
+					}
+					from := fnName(fd)
+					exported[from] = fd.Name.IsExported()
+					ast.Inspect(fd.Body, func(nd ast.Node) bool {
+						id, ok := nd.(*ast.Ident)
+						if !ok {
+							return true
+						}
+						if fo, ok := pk.Info.Uses[id].(*types.Func); ok && fo.Pkg() == pk.Types {
+							to := fo.Name()
+							if sig, ok := fo.Type().(*types.Signature); ok && sig.Recv() != nil {
+								rt := sig.Recv().Type()
+								if pt, ok := rt.(*types.Pointer); ok {
+									rt = pt.Elem()
+								}
+								if nt, ok := types.Unalias(rt).(*types.Named); ok {
+									to = nt.Obj().Name() + "." + to
+								}
+							}
+							if callers[to] == nil {
+								callers[to] = map[string]bool{}
+							}
+							callers[to][from] = true // any mention counts (also as a function value)
+						}
+						return true
+					})
+				}
+			}
+			okFn := map[string]bool{}
+			for a := range allowed {
+				okFn[a] = true
+			}
+			for changed := true; changed; {
+				changed = false
+				for fn, cs := range callers {
+					if okFn[fn] || exported[fn] || len(cs) == 0 {
+						continue
+					}
+					all := true
+					for c := range cs {
+						if !okFn[c] && c != fn {
+							all = false
+						}
+					}
+					if all {
+						okFn[fn], changed = true, true
+					}
+				}
+			}
 			for _, f := range pk.Files {
 				if strings.HasSuffix(w.Fset.Position(f.Pos()).Filename, "_test.go") {
 					continue
@@ -311,7 +379,7 @@ func (w *World) restrictResults() []*obResult {
 						ob := &Obligation{Name: name, Tags: rd.Tags, Func: rd.Pkg + "." + fn, Kind: "restricted-call", Pos: w.pos(c.Pos()),
 							Descr: fmt.Sprintf("%s is called in %s.%s", rd.Method, rd.Pkg, fn)}
 						r := &obResult{Ob: ob}
-						if allowed[fn] || allowed[fd.Name.Name] {
+						if allowed[fn] || allowed[fd.Name.Name] || okFn[fn] {
 							r.Status, r.By = "discharged", "scan"
 							ob.Descr += " -- one of the functions the contracts allow to do so: " + rd.Why
 						} else {
